@@ -494,3 +494,53 @@ func VerifHarness_C08_O7() {
 // Node.GetBlock reports for a delivered block) and its block-signature clauses.
 func VerifHarness_C02_O7() { VerifHarness_C01_O10() }
 func VerifHarness_C09_O9() { VerifHarness_C01_O10() }
+
+// serveFastForward: every node that has an anchor answers a fast-forward
+// request through the real handler.  Serving is read-only: the node's DAG, head
+// and blocks are unchanged, and the stored anchor block keeps every signature it
+// had collected (signatures only grow).  Returns the largest number of
+// signatures seen on a served anchor.
+func (nw *verifNet) serveFastForward() int {
+	most := 0
+	for _, vn := range nw.nodes {
+		a := vn.n.core.hg.AnchorBlock
+		if a == nil || vn.n.GetState() != state.Babbling {
+			continue
+		}
+		sb, err := vn.store.GetBlock(*a)
+		if err != nil {
+			continue
+		}
+		nsig := len(sb.GetSignatures())
+		before := vn.dagDigest()
+		resp := vn.rpc(&net.FastForwardRequest{FromID: 77})
+		ff, ok := resp.Response.(*net.FastForwardResponse)
+		verifAssert("fast-forward-request-served-by-a-node-with-an-anchor", resp.Error == nil && ok)
+		if !ok {
+			continue
+		}
+		verifAssert("served-block-is-the-anchor", ff.Block.Index() == *a)
+		after, _ := vn.store.GetBlock(*a)
+		verifAssert("serving-a-fast-forward-request-keeps-the-stored-blocks-signatures", after != nil && len(after.GetSignatures()) == nsig)
+		verifAssert("serving-a-fast-forward-request-changes-nothing", verifNodeDigestEq(before, vn.dagDigest()))
+		if nsig > most {
+			most = nsig
+		}
+	}
+	return most
+}
+
+// C02/O8 (= C09/O10) — node level: after real gossip and a fair suffix the
+// nodes hold anchors signed by several validators; each serves a fast-forward
+// request.  "Only the set of collected signatures may grow": serving leaves the
+// stored block's signatures (and everything else) as they were.
+func VerifHarness_C02_O8() {
+	nw := verifNetRun(20, 1, 8, 1000, -1, false)
+	most := nw.serveFastForward()
+	if most >= 3 {
+		verifReach("an-anchor-with-more-signatures-than-a-requester-needs-was-served")
+	}
+	verifReach("end")
+}
+
+func VerifHarness_C09_O10() { VerifHarness_C02_O8() }
